@@ -396,6 +396,15 @@ func c12CheckSave(c C12Save) *pbt.Violation {
 	var data []uint64
 	if bits > 0 {
 		data = rb.Pack(idx, bits)
+	} else {
+		// a single-entry palette has no data array: absent (nil), or present and empty - an NBT reader that finds
+		// `data: [L;]` hands over an empty, non-nil slice
+		switch c.Seed % 3 {
+		case 1:
+			data = []uint64{}
+		case 2:
+			data = make([]uint64, 0, 8)
+		}
 	}
 	// the reference reading of the save form
 	want, err := pal.SaveDecode(kind, len(c.Palette), data)
